@@ -45,10 +45,10 @@ package service
 //@   requires !errReported
 //@   ensures errReported || jsDone(stream)
 //@   loop 1:
-//@     invariant grouped(stream, i, j) && !errReported
+//@     invariant 0 <= i && i <= 1 && 0 <= j && j <= 1 && grouped(stream, i, j) && !errReported
 //@     modifies stream.g_state, stream.g_kind, stream.g_depth
 //@   loop 2:
-//@     invariant grouped(stream, i, j) && !errReported
+//@     invariant 0 <= i && i <= 1 && 0 <= j && j <= 1 && grouped(stream, i, j) && !errReported
 //@     modifies stream.g_state, stream.g_kind, stream.g_depth
 //@   replay:
 //@     let fp = 0
